@@ -207,7 +207,10 @@ def cmp_snap(ctx, g, e, prof, where, name_map=None, skip_chains=(), detail=None)
             ok &= ctx.require(gr == er, fam + ':replica-mean', lambda: dict(det, chain=n, got=gr, exp=er))
         else:
             sc = chain_scale(e, n, prof.scale)
-            ok &= ctx.close(gd, ed, fam + ':fluctuations', where + ' chain ' + n, rtol=prof.delta_rtol, scale=sc, detail=detail)
+            # a fluctuation is only defined up to the rounding of the replica mean it is measured from (sample = r_mean + delta): a frozen
+            # chain has fluctuations of a few ulp of the mean, which the formats reproduce only up to a common shift of that size
+            ok &= ctx.close(gd, ed, fam + ':fluctuations', where + ' chain ' + n, rtol=prof.delta_rtol, scale=sc,
+                            atol=1e-15 * (abs(er) + abs(float(e['value']))), detail=detail)
             ok &= ctx.close(gr, er, fam + ':replica-mean', where + ' chain ' + n, rtol=prof.delta_rtol,
                             scale=sc + abs(er) + abs(float(e['value'])), detail=detail)
     ec, gc = e['cov'], g['cov']
@@ -240,6 +243,9 @@ def analysable(e, lo=1e-140, hi=1e140, ratio=1e4, mode='json'):
         sc = chain_scale(e, n, mode)
         if md == 0.0 or not (lo < md < hi) or sc > ratio * md:
             return False
+        if md <= 1e-10 * (abs(r) + abs(float(e['value']))):
+            return False          # fluctuations that are rounding noise of the mean (a frozen chain): nothing to analyse
+
     for n, (cov, grad) in e['cov'].items():
         m = float(np.max(np.abs(grad))) if grad.size else 0.0
         c = float(np.max(np.abs(cov))) if cov.size else 0.0
@@ -383,14 +389,57 @@ def strided_copy(rng, x):
     return np.array(x[::-1])[::-1]
 
 
-def primary(pe, rng, chains, kind, table=None):
+STATS = {}          # generator telemetry (flushed into the evidence by the property modules)
+
+
+def _stat(name, n=1):
+    STATS[name] = STATS.get(name, 0) + n
+
+
+def flush_stats(ctx):
+    for k, v in STATS.items():
+        ctx.count(k, v)
+    STATS.clear()
+
+
+def jackknife_primary(pe, rng, chains, kind):
+    """An observable whose central value is NOT the mean of its replica means: jackknife samples of a non-linear function
+    imported with import_jackknife (entry 0 = f(mean) differs from the mean of f over the jackknife means), one import per
+    chain, summed over the chains of the ensemble."""
+    o = None
+    for n in sorted(chains):
+        cfgs = chains[n]
+        x = rand_samples(rng, len(cfgs), kind)
+        tot = float(np.sum(x))
+        jm = (tot - x) / (len(x) - 1)
+        f = (lambda y: y + 0.3 * y * y) if rng.random() < 0.5 else (lambda y: np.exp(0.2 * y))
+        jacks = np.concatenate([[f(tot / len(x))], f(jm)])
+        part = pe.import_jackknife(jacks, n, idl=[list(cfgs)])
+        o = part if o is None else o + part
+    _stat('primaries_with_replica_mean_different_from_value')
+    return o
+
+
+def primary(pe, rng, chains, kind, table=None, special=True):
+    """special: True (both), 'frozen-only' (no jackknife imports: the format wants plain primaries), False."""
+    if special is True and table is None and rng.random() < 0.15:
+        return jackknife_primary(pe, rng, chains, kind)
+    return _primary(pe, rng, chains, kind, table, frozen=bool(special))
+
+
+def _primary(pe, rng, chains, kind, table=None, frozen=True):
     """Primary observable on the chains {name: idl} of one ensemble.  The configuration lists are handed over as
     range / list of int / list of numpy integers / int64 array / int32 array, the samples as arrays, strided views or lists."""
     names = sorted(chains)
     samples, idls = [], []
+    # all-equal samples on one replica of several (a charge frozen at 0, a constant) while the others fluctuate
+    frozen_chain = names[int(rng.integers(0, len(names)))] if (frozen and len(names) > 1 and rng.random() < 0.15) else None
     for n in names:
         cfgs = chains[n]
         x = rand_samples(rng, len(cfgs), kind)
+        if n == frozen_chain:
+            x = np.full(len(cfgs), float(rng.choice([0.0, 1.0, -2.0, 0.5])))
+            _stat('frozen_replica_chains')
         if table is not None:
             table[n] = {int(c): float(v) for c, v in zip(cfgs, x)}
         u = rng.random()
@@ -596,8 +645,9 @@ class Family:
                 o = o + lin
             else:
                 o = o * comps[0] + lin
-        if ens and rng.random() < 0.08:
-            # degenerate value: the central value is exactly 0.0 while the fluctuations are not (o - <o>)
+        if ens and rng.random() < 0.08 and all(float(np.max(np.abs(d))) > 1e-6 * abs(o.value) for d in o.deltas.values() if len(d)):
+            # degenerate value: the central value is exactly 0.0 while the fluctuations are not (o - <o>); chains whose
+            # fluctuations are rounding noise of the value would turn into objects made of noise only
             o = o - o.value
             self.centered += 1
         mag = self.magnitude() if mag is None else mag
